@@ -70,18 +70,19 @@ def make_case(g, rng):
                       "dry_validate", "dry_dry_run", "dry_run_space", "execute_ok", "execute_ok", "execute_fail", "execute_fail",
                       "invalid_plus_validate", "missing_key_plus_dry_run", "missing_self_written_key",
                       "missing_key_of_second_same_named_processor", "dry_run_space_without_blocks", "dry_run_space_without_blocks",
-                      "invalid_sweep_expression", "invalid_sweep_expression", "malformed_run_space"])
+                      "invalid_sweep_expression", "invalid_sweep_expression", "malformed_run_space",
+                      "null_cell_for_required_key", "null_cell_for_required_key", "override_file_null_run_space"])
     nodes = base_pipeline(g)
     if cls == "missing_key_of_second_same_named_processor":
         # two generated processors that get the SAME class name (both write `label`) but need different keys; the key only
         # the second one needs is not supplied
         nodes.insert(2, {"processor": "template:\"{stem}_raw\":label"})
         nodes.insert(4, {"processor": "template:\"{outdir}/{stem}_scaled\":label"})
-    if cls == "missing_self_written_key" and not any("tplk" in n["processor"] for n in nodes):
+    if cls in ("missing_self_written_key", "null_cell_for_required_key") and not any("tplk" in n["processor"] for n in nodes):
         nodes.insert(2, {"processor": "template:\"{tplk}_x\":tplk"})
     has_boom = any(n["processor"] == "VBoom" for n in nodes)
     need = rm.key_flow(nodes)["required"]           # e.g. ["factor"|"a", "value"] (+ nothing for fuse: it has a default)
-    n_runs = rng.randint(1, 4)
+    n_runs = rng.randint(1, 4) if cls != "null_cell_for_required_key" else rng.randint(2, 4)
     vals = lambda: [round(rng.choice([1.0, 2.0, 3.0]) + 0.25 * i, 2) for i in range(n_runs)]  # noqa: E731
     ctx_lists = {k: (vals() if k != "tplk" else [f"s{i}" for i in range(n_runs)]) for k in need}
     fuse = [0.0] * n_runs
@@ -101,6 +102,22 @@ def make_case(g, rng):
                                                                                      "collection": "FloatDataCollection"}}})
         nodes.insert(4, {"processor": "VCollSum"})
         argv_extra += rng.choice([[], [], ["--validate"], ["--dry-run"]])
+        expect = {"rc": 3, "executes": False}
+    elif cls == "null_cell_for_required_key":
+        # the run space gives a REQUIRED key the value null for one run (a YAML null, an empty cell): either null is a value
+        # and every run completes (exit 0), or the key counts as not supplied and NOTHING runs (exit 3) - never a launch
+        # that starts and dies at the run with the null
+        k_null = rng.randrange(1, n_runs) if g.chance(0.7) else 0
+        ctx_lists["tplk"] = [None if i == k_null else f"s{i}" for i in range(n_runs)]
+        expect = {"rc": (0, 3), "executes": "all_or_nothing"}
+    elif cls == "override_file_null_run_space":
+        # --run-space-file names a file whose run_space: entry is null (every line under it commented out): an invalid
+        # override - nothing may run (the pipeline itself needs no run-space key)
+        nodes = [{"processor": "VSrc", "parameters": {"value": 2.0}}, {"processor": "VFileSink", "parameters": {"path": "early_sink.txt"}},
+                 {"processor": "VMul", "parameters": {"factor": 3.0}}, {"processor": "VNullSink"}]
+        run_space = None
+        files["rs_null.yaml"] = rng.choice(["run_space:\n  # combine: combinatorial\n  # blocks: []\n", "run_space: null\n", "run_space: ~\n"])
+        argv_extra += ["--run-space-file", "rs_null.yaml"]
         expect = {"rc": 3, "executes": False}
     elif cls == "invalid_unknown_processor":
         nodes[2] = {"processor": "NoSuchProcessorAnywhere"}
@@ -320,6 +337,8 @@ def run_case(run, case, scratch, subprocess_=False, strace=False):
     run.count("invocations_subprocess" if subprocess_ else "invocations_inprocess")
     run.count(f"class_{case['class']}")
     exp = case["expect"]
+    if exp["executes"] == "all_or_nothing":
+        exp = dict(exp, executes=(res.rc != 3))
     witness = {"class": case["class"], "nodes": case["nodes"], "run_space": case["run_space"], "argv": argv[2:], "rc": res.rc,
                "stderr": res.err[-400:], "stdout": res.out[-200:], "new_files": new_files, "leaves": [l[0] for l in leaves][:12]}
     ok_rcs = exp["rc"] if isinstance(exp["rc"], tuple) else (exp["rc"],)
